@@ -125,10 +125,15 @@ OpStep(doc, e) ==
                          ELSE LET r == Edit(doc, from, "remove", [t |-> "none"]) IN
                               IF ~r.ok THEN Fail ELSE Edit(r.v, path.s, "add", g.v))
             ELSE Fail
-\* an operation whose path (or from) is the whole document: RFC 6902 defines it, json-c's handling is
-\* not judged (replace/remove/move of the root)
-WholeDoc(e) == e.t = "object" /\ ((HasMember(e, S_path) /\ IsStr(Member(e, S_path)) /\ Len(Member(e, S_path).s) = 0)
-                                  \/ (HasMember(e, S_from) /\ IsStr(Member(e, S_from)) /\ Len(Member(e, S_from).s) = 0))
+\* Operations on the whole document.  Reading it is plain RFC 6902 and is judged: `test` with path "", `copy` with
+\* from "".  Not judged: operations that REPLACE or drop the whole document (add / replace / copy / move / remove with
+\* path "") - json-c represents the JSON value null as a NULL pointer, which its API cannot tell from "no document",
+\* so a patch that makes the whole document null cannot be continued - and `move` from the whole document.
+WholeDoc(e) == /\ e.t = "object" /\ HasMember(e, S_op) /\ IsStr(Member(e, S_op))
+               /\ LET PathIsRoot == HasMember(e, S_path) /\ IsStr(Member(e, S_path)) /\ Len(Member(e, S_path).s) = 0
+                      FromIsRoot == HasMember(e, S_from) /\ IsStr(Member(e, S_from)) /\ Len(Member(e, S_from).s) = 0
+                  IN \/ (Member(e, S_op).s \in {S_add, S_replace, S_copy, S_move, S_remove} /\ PathIsRoot)
+                     \/ (Member(e, S_op).s = S_move /\ FromIsRoot)
 \* a `test` whose outcome hinges on comparing numbers of different kinds
 RECURSIVE HasDouble(_)
 HasDouble(v) == IF v.t = "double" THEN TRUE
